@@ -396,4 +396,36 @@ PROPS = {
                 "distinct by rendered term / description",
         "trusted": [],
     },
+    "C16": {
+        "harness": "c16",
+        "imports": ["Base", "Dispatch", "Check16"],
+        "case_type": "c16_case",
+        "check": "c16_check",
+        "preamble": "From Coq Require Import String.\nOpen Scope string_scope.",
+        "mismatch_is_violation": True,
+        "timeout_quick": 900,
+        "theories": ["theories/Base.v", "theories/Dispatch.v", "theories/DispatchProofs.v", "gen/Facts.v"],
+        "check_theories": ["theories/Check16.v"],
+        "level_text": "Coq theorems over the registry model: a service exposes exactly prefix + lower-cased-first-letter "
+                      "names of its usable exported methods, restricted to the allow-list; unknown names (case variants, "
+                      "unexported, helpers) are method-not-found; the method runs iff the name is registered and the "
+                      "positional parameters are accepted; too many, too few (required), wrongly typed, absent or "
+                      "non-array parameters are invalid-params and nothing runs. The production statement — the pool "
+                      "binary serves exactly the ten documented calls, the agent exactly vipnode_whitelist — is a "
+                      "computed obligation over facts regenerated on every run: the method sets of *VipnodePool, "
+                      "*PaymentService, *PoolStatus, *Agent by Go reflection and the literal arguments of the Register "
+                      "calls in pool.go / agent.go. Tied to the code by an instrumented receiver (invocation counter) "
+                      "registered under random prefixes/allow-lists and probed with every name variant x arity 0..n+2 x "
+                      "JSON kind per position, by the production receivers registered as pool.go does, and by the "
+                      "built vipnode binary probed over HTTP with every method name of the three receivers.",
+        "level_note": "Trusted: Coq kernel; encoding/json's acceptance of a JSON value for a Go kind as tabulated in "
+                      "Dispatch.accepts (null is a no-op, numbers must fit, unknown object fields ignored); reflection-"
+                      "based fact extractor; the WebSocket transport shares the same Server as HTTP (server.go).",
+        "technique": "Coq proof + computed obligation over regenerated registry facts + vm_compute correspondence + binary probe",
+        "rule": "12 registrations of the instrumented receiver (3 prefixes, 4 allow-list shapes), each probed with all "
+                "rpc names and 6 case variants, helper/unexported names, absent/null/object/string params, arities "
+                "0..n+2, 9 JSON kinds at every position; unsupported-return receiver; 3 production registrations; "
+                "1 built binary probed with ~120 names",
+        "trusted": [],
+    },
 }
